@@ -51,8 +51,8 @@ HOOK_FLOORS = {"quick": {"parser_init": 10000, "nested_parser_init": 1000},
 
 SCHEMA = "<schema><multikey name='k' attribute='k'/></schema>"
 DEF_NAMES = ["a", "A", "b"]
-USE_NAMES = ["a", "A", "b", "c"]
-VALUES = ["x", "y", "", "$b", "$a", "$$b", "${b}x", "  x "]
+USE_NAMES = ["a", "A", "b", "c", "{A}", "{b}"]
+VALUES = ["x", "y", "", "$b", "$a", "$$b", "${B}x", "  x "]
 STEPS = [("d", n, v) for n in DEF_NAMES for v in VALUES] + \
         [("u", n) for n in USE_NAMES]
 BOUND = {"quick": 2, "thorough": 3}
@@ -216,7 +216,7 @@ def signature(files, exp_out, defines):
                                         else 9, "r" if n in seen else ""))
                 seen.add(n)
             elif s[0] == "u":
-                kinds.append("U" + ("+" if s[1].lower() in seen else "-"))
+                kinds.append("U" + ("+" if s[1].strip("{}").lower() in seen else "-"))
             else:
                 kinds.append("I%d[" % (depth + 1))
                 walk(s[1], depth + 1)
@@ -308,6 +308,9 @@ def random_case(rng):
 def run_shard(ctx):
     import io
     import ZConfig
+    # '$name' must never be resolved from the process environment
+    for n in ("a", "A", "b", "B", "c", "C"):
+        os.environ[n] = "FROM-ENVIRONMENT"
     schema = ZConfig.loadSchemaFile(io.StringIO(SCHEMA))
     hook = Hook(ctx.res)
     hook.install()
